@@ -438,16 +438,19 @@ class Device(object):
     # -- streams -------------------------------------------------------------------------
     def _new_remote_id(self, local):
         used_local = set(self.by_local.keys()) | {local}
-        for _ in range(64):
-            parts = [self.tape.draw('rid', 256) for _ in range(4)]
-            rid = parts[0] | (parts[1] << 8) | (parts[2] << 16) | (parts[3] << 24)
-            style = self.spec.get('rid_style', 'wide')
-            if style == 'high':
-                rid |= 0xFFFF0000
-            if rid < 0x10000:
-                rid += 0x10000
-            if rid not in self.streams and rid not in used_local and rid != 0:
+        parts = [self.tape.draw('rid', 256) for _ in range(4)]
+        rid = parts[0] | (parts[1] << 8) | (parts[2] << 16) | (parts[3] << 24)
+        if self.spec.get('rid_style', 'wide') == 'high':
+            rid |= 0xFFFF0000
+        if rid < 0x10000:
+            rid += 0x10000
+        # deterministic probing: never 0, never a local id in use, never a live remote id
+        for _ in range(1 << 16):
+            if rid not in self.streams and rid not in used_local and rid >= 0x10000:
                 return rid
+            rid = (rid + 1) & 0xFFFFFFFF
+            if rid < 0x10000:
+                rid = 0x10000
         raise AssertionError('no remote id')
 
     def _q(self, s, pkt, now, lat=None):
